@@ -1,8 +1,9 @@
 // lungocheck: repository-specific static checks for 256dpi/lungo.
 //
 // Usage: lungocheck -prop C04 [-tier quick|thorough] [-repo /repo] [-out /verif]
-//        lungocheck -explain <report file>
-//        lungocheck -rules            (list rules)
+//
+//	lungocheck -explain <report file>
+//	lungocheck -rules            (list rules)
 package main
 
 import (
@@ -285,7 +286,6 @@ var trustedBase = []string{
 	"third-party code behaves as documented: tidwall/btree Copy is copy-on-write, tomb.v2 Kill/Alive/Wait, mongo-driver bson codec, shopspring/decimal",
 	"reflect/unsafe are not modelled (assertOptions, DecodeList use reflect on caller-owned values; index/sort tie-breaks use pointer identity)",
 }
-
 
 // runAll loads the repo once, runs every registered rule once and prints a verdict per claimed
 // property (used to evaluate seeded changes quickly; writes no evidence).
